@@ -116,10 +116,19 @@ func decodedFrame(g, i int) frame.Frame {
 	return fr
 }
 
+var reusedMsg [64]common.MessageSystemTime
+
 // execFanOp performs item i of goroutine g.
 func execFanOp(n *gomavlib.Node, g, i int, o fanOp, target *gomavlib.Channel) {
 	if o.kind == 'm' {
 		var m message.Message = &common.MessageSystemTime{TimeUnixUsec: uint64(i) | uint64(g)<<32}
+		if g%2 == 1 {
+			// every other goroutine keeps ONE message struct and fills it in again for each call (what was submitted is the
+			// value at the time of the call)
+			st := &reusedMsg[g%len(reusedMsg)]
+			st.TimeUnixUsec = uint64(i) | uint64(g)<<32
+			m = st
+		}
 		if o.bad {
 			m = &message.MessageRaw{ID: 99999, Payload: []byte{1}}
 		}
